@@ -578,7 +578,7 @@ Proof.
     destruct (lookup mid (msgs st0)) as [m|] eqn:Hm; [|intro E; inversion E; subst; exact H0].
     destruct (merge_step Hash (cf_limit (cfg st0)) (pm_sm m) slot ty rsp) as [[sm'|]|w|]; try discriminate.
     2:{ intro E. inversion E; subst. exact H0. }
-    destruct (is_auth_failure ty); [discriminate|].
+    destruct (is_auth_failure ty && ps_initializing sv)%bool; [discriminate|].
     set (m' := {| pm_client := pm_client m; pm_sm := sm'; pm_reqs := pm_reqs m; pm_seq := pm_seq m; pm_moved := pm_moved m; pm_route := pm_route m |}).
     assert (H1 : CInvG (set_msg st0 mid m') (Some (pm_client m))).
     { apply set_msg_inv with (m := m) (ex := None); [exact Hm | reflexivity | reflexivity | left; reflexivity | exact H0]. }
@@ -794,6 +794,25 @@ Lemma enqueue_out_tail st s f sv : lookup s (servers st) = Some sv ->
 Proof.
   intro H. unfold enqueue_out. rewrite H. eexists. cbn [set_tasks set_server servers]. rewrite lookup_update_eq.
   split; [reflexivity|]. split; reflexivity.
+Qed.
+
+(* ---------- a client cannot stop the proxy through a node's error reply (C12 / C11) ---------- *)
+(* the reply at the head of an INITIALIZED connection that answers a client's fragment never shuts
+   the proxy down, whatever its type and text - also the authentication errors a script can make a
+   node say; only the handshake's own answer and the topology probe's answer can *)
+Theorem client_reply_never_shuts_down st s sv mid slot inq' ty rsp :
+  lookup s (servers st) = Some sv -> ps_inq sv = FReq mid slot :: inq' -> ps_initializing sv = false ->
+  on_reply st s ty rsp <> RShutdown.
+Proof.
+  intros Hs Hq Hi. unfold on_reply. rewrite Hs, Hq, Hi, Bool.andb_false_r.
+  match goal with |- context [set_inflight ?a ?b] => set (st0 := set_inflight a b) end.
+  destruct (frag_done st0 mid slot); [discriminate|].
+  destruct (N.eqb ty RspMoved || N.eqb ty RspAsk)%bool; [discriminate|].
+  destruct (lookup mid (msgs st0)) as [m|]; [|discriminate].
+  destruct (merge_step Hash (cf_limit (cfg st0)) (pm_sm m) slot ty rsp) as [[sm'|]| |]; try discriminate.
+  match goal with |- context [set_msg st0 mid ?x] => set (st1 := set_msg st0 mid x) end.
+  destruct (lookup (pm_client m) (clients st1)) as [cl|]; [|discriminate].
+  destruct (negb (pc_open cl)); [discriminate|]. destruct (pc_queue cl); discriminate.
 Qed.
 
 (* an ASK redirect queues ASKING and then the request, next to each other, at the tail of the named
